@@ -139,7 +139,7 @@ class IncomingMessageHandler(IncomingMessageHandlerBase):
             raise MissingNodeError(message.node_id)
 
         if message.child_id not in gateway.nodes[message.node_id].children:
-            raise MissingChildError(message.node_id)
+            raise MissingChildError(message.child_id)
 
         gateway.nodes[message.node_id].set_child_value(
             message.child_id,
@@ -175,7 +175,7 @@ class IncomingMessageHandler(IncomingMessageHandlerBase):
             raise MissingNodeError(message.node_id)
 
         if message.child_id not in gateway.nodes[message.node_id].children:
-            raise MissingChildError(message.node_id)
+            raise MissingChildError(message.child_id)
 
         value = (
             gateway.nodes[message.node_id]
